@@ -76,7 +76,7 @@ def run(tier, replay=None):
         singles = [m for m in msgs if len(m['ps']) <= 1]
         pairs = [m for m in msgs if len(m['ps']) == 2]
         msgs = singles + rnd.sample(pairs, min(1500, len(pairs)))
-    n = {'encode': 0, 'parse': 0, 'idempotent': 0, 'in_sk': 0, 'dump': 0, 'dump_fields': 0}
+    n = {'encode': 0, 'parse': 0, 'idempotent': 0, 'in_sk': 0, 'mixed': 0, 'dump': 0, 'dump_fields': 0}
     distinct = set()
     samples = []
     for vec in msgs:
@@ -133,6 +133,25 @@ def run(tier, replay=None):
             if not inner_ok or not back_ok or sealed != mine:
                 v.violation(f'payloads {[p["t"] for p in ps]} inside an encrypted payload do not round-trip / differ from the RFC layout',
                             {'inner_ok': inner_ok, 'back_ok': back_ok, 'bytes_equal': sealed == mine}, signature={'component': 'in_sk'})
+        # (4b) clear payloads in front of the encrypted payload (3.14: SK is the last payload; the header names the first payload of the message)
+        if len(ps) == 2 and expressible(ps) and n['mixed'] < (300 if tier == 'quick' else 10 ** 9):
+            cr, keys = V.make_crypto(128 if n['mixed'] % 2 else 256, (12, 14, 2)[n['mixed'] % 3])
+            hh = dict(h, xchg=37)
+            n['mixed'] += 1
+            try:
+                sealed = bytes(V.build_message(hh, [V.build_payload(ps[0])], encrypted=[V.build_payload(ps[1])], crypto=cr, iv=b'\x32' * 16).to_bytes())
+            except Exception as ex:
+                sealed = repr(ex).encode()
+            mine = W.enc_message({'spi_i': bytes(h['spi_i']), 'spi_r': bytes(h['spi_r']), 'xchg': 37, 'response': h['response'], 'version': h['version'],
+                                  'initiator': h['initiator'], 'mid': h['mid'][0] * 65536 + h['mid'][1], 'major': h['major'], 'minor': h['minor']}, [denorm(ps[0])],
+                                 sk={'ke': keys['ke'], 'ka': keys['ka'], 'integ': keys['integ'], 'iv': b'\x32' * 16, 'inner': [denorm(ps[1])]})
+            kk, mm, _ = V.counted_parse(mine, crypto=cr)
+            back_ok = (kk == 'ok' and [V.summarize_payload(p) for p in mm.encrypted_payloads] == ps[1:]
+                       and [V.summarize_payload(p) for p in mm.payloads if int(p.type) != W.SK] == ps[:1])
+            if sealed != mine or not back_ok:
+                v.violation(f'clear payload {ps[0]["t"]} followed by an encrypted payload holding {ps[1]["t"]}: differs from the RFC layout / does not parse back',
+                            {'bytes_equal': sealed == mine, 'back_ok': back_ok, 'first_payload_octet': [sealed[16:17].hex(), mine[16:17].hex()]},
+                            signature={'component': 'mixed', 'header': sealed[:28] == mine[:28]})
         # (5) the structured dump names every payload, in order, and shows every decoded field value
         try:
             dump = msg.to_dict()
